@@ -188,7 +188,21 @@ def body_epsilon_cut(ctx, conservative):
     d._window_size = W
     d._curr_variance = var_sum
     d._curr_total = t0 + t1
-    got = d._check_epsilon(n0, t0, n1, t1)
+    log_args = []
+
+    def rec_log(v):
+        log_args.append(v)
+        return np.log(v)
+
+    with rebind(M, log=rec_log):
+        got = d._check_epsilon(n0, t0, n1, t1)
+    # log is an uninterpreted (monotone) function in the solver: a wrong *argument* is only a replayable counterexample
+    # when it is an obligation of its own
+    ctx.prove(len(log_args) == 2, "confidence-term-is-log-of-log")
+    if len(log_args) == 2:
+        inner = np.log(n0 + n1)
+        ctx.prove(land(ctx.eq(log_args[0], n0 + n1), ctx.eq(log_args[1], (4 if conservative else 2) * inner / delta)),
+                  "confidence-term-argument")
     # documented cut (Bifet & Gavalda 2007, with delta' = ln(2 ln W / delta) as noted in the source)
     log = lambda v: np.log(v)  # noqa: E731  (dispatches to the same uninterpreted log on proxies)
     inv_m = 1 / (n0 - thr + 1) + 1 / (n1 - thr + 1)
